@@ -22,6 +22,7 @@ func init() {
 func runC11(c *Ctx) {
 	p := c.P
 	s := p.Selectors()
+	s.checkAddedProcessHasLog(c, "added-process-has-log")
 	requireN("RunEntry", s.RunEntries, 1, 1)
 	run := s.RunEntries[0]
 
@@ -443,4 +444,48 @@ func derivesFromExtract(v ssa.Value, call *ssa.Call, idx int, depth int) bool {
 		}
 	}
 	return false
+}
+
+// checkAddedProcessHasLog (C11): every function that adds a process to the project at run time registers its log buffer
+// on every path - a process without a registered buffer writes into an unreachable fallback buffer.
+func (s *Sel) checkAddedProcessHasLog(c *Ctx, ruleID string) {
+	p := c.P
+	rule := c.Rule(ruleID, "every runner function that inserts a new key into project.Processes (not the rename) passes, on every path through that insertion, a call that inserts into processLogs - whatever the flags of the new process")
+	d := p.Deep(MapUpdateOn("logs", s.FLogs))
+	ctor := p.Func("app", "NewProjectRunner")
+	n := 0
+	for _, f := range p.FuncsOfPkg("app") {
+		if !s.IsRunnerMethod(f) || f == ctor || p.onlyReachedFrom(f, []*ssa.Function{ctor}, 0) {
+			continue
+		}
+		if len(DirectSites(f, MapDeleteOn("d", s.FProcesses))) > 0 {
+			continue
+		}
+		for _, in := range DirectSites(f, MapUpdateOn("w", s.FProcesses)) {
+			mu := in.(*ssa.MapUpdate)
+			if isRangeKeyOver(mu.Key, s.FProcesses) || (PathOf(mu.Key).LastField() == s.FReplicaName && isRangeValueBase(mu.Key, s.FProcesses)) {
+				continue
+			}
+			n++
+			c.Touch(f)
+			barrier := func(x ssa.Instruction) bool {
+				switch x.(type) {
+				case *ssa.Go, *ssa.Defer:
+					return false
+				}
+				return d.MayAt(x)
+			}
+			before := !Reach(Entry(f), barrier, nil)[in]
+			after1 := true
+			for x := range Reach([]Pt{after(in)}, barrier, nil) {
+				if _, isRet := x.(*ssa.Return); isRet {
+					after1 = false
+				}
+			}
+			c.Check(before || after1, rule, p.FuncKey(f), p.InstrPos(in), "the log buffer is registered on every path", "a process can be added to the project without a log buffer (e.g. only when it starts right away): when it is started later its output goes to an unreachable fallback buffer and log queries for it fail")
+		}
+	}
+	if n == 0 {
+		c.Bad(rule, "none", "", "no function adds a process to project.Processes at run time")
+	}
 }
